@@ -129,6 +129,7 @@ PLANS["C01"] = {
     "jobs": lambda seed, tier: spread(seed, "C01", N(tier, 130, 2600), ALL_LOGICS, "answers") +
                                spread(seed, "C01i", N(tier, 30, 600), COMBO_LOGICS, "answers", mode="interface") +
                                spread(seed, "C01d", N(tier, 20, 400), ["QF_IDL", "QF_RDL", "QF_IDL", "QF_RDL", "QF_UFIDL"], "answers", mode="cnf", nnum=5, maxconst=2, n_atoms=10) +
+                               spread(seed, "C01e", N(tier, 30, 600), ["QF_UF"], "answers", mode="diamond") +
                                spread(seed, "C01g", N(tier, 40, 800), ["QF_IDL", "QF_RDL", "QF_IDL", "QF_RDL", "QF_UFIDL"], "answers", mode="dlgraph", nnum=5) +
                                spread(seed, "C01b", N(tier, 26, 600), ALL_LOGICS, "answers", more_cfgs=["la", "ghost"]),
     "rule": "random incremental scripts over all supported logic families; the kernel (TLC) evaluates candidate models "
@@ -180,6 +181,8 @@ PLANS["C05"] = {
                                # against the simplex solver of the embedding logic
                                spread(seed, "C05d", N(tier, 20, 400), ["QF_IDL", "QF_RDL"], "configs", mode="cnf", nnum=5, maxconst=2, n_atoms=10,
                                       cfgs=["embed", "seed", "cores", "proofs"]) +
+                               spread(seed, "C05e", N(tier, 40, 800), ["QF_UF"], "configs", mode="diamond",
+                                      cfgs=["cores", "proofs", "embed", "nosubst", "seed", "la"]) +
                                spread(seed, "C05g", N(tier, 80, 1600), ["QF_IDL", "QF_RDL"], "configs", mode="dlgraph", nnum=5,
                                       cfgs=["embed", "seed", "cores", "proofs"]),
     "rule": "one script under up to 15 configurations (engines, seeds, tracking, preprocessing, restarts, logic embedding); "
@@ -349,7 +352,8 @@ PLANS["C12"] = {
 PLANS["C13"] = {
     "module": "Engine_Trace",
     "jobs": lambda seed, tier: engine_jobs(seed, "C13", N(tier, 140, 2800), ALL_LOGICS,
-                                           [["c0"], ["cores"], ["itp"], ["nosubst"], ["proofs"]], need="frames"),
+                                           [["c0"], ["cores"], ["itp"], ["nosubst"], ["proofs"]], need="frames") +
+                               engine_jobs(seed, "C13d", N(tier, 40, 800), ["QF_UF"], [["c0"], ["c0"], ["nosubst"], ["cores"]], need="frames", modes=["diamond"]),
     "rule": "per frame: asserted formulas versus the roots given to the CNF converter for all active frames (whole-frame and "
             "per-partition mode); the kernel evaluates candidate models of (given and not asserted)",
 }
